@@ -36,7 +36,55 @@ def _set_order_exception(q: str, node: ast.AST, is_converter: bool = False) -> O
     return None
 
 
+FILE_WRITERS = ("os.replace", "os.rename", "os.unlink", "os.remove", "os.makedirs", "os.mkdir", "os.fsync", "shutil.move")
+
+
+def _names_temp_file_only(n: ast.Call, fn: ast.FunctionDef) -> bool:
+    """an ambient value (pid, thread id, uuid) that only goes into the *name* of a file which is written and then renamed / removed: it
+    selects where the bytes are parked for a moment, never what any result is computed from"""
+    cur = n
+    while not isinstance(cur, ast.stmt):
+        cur = cur.parent
+    if not (isinstance(cur, ast.Assign) and len(cur.targets) == 1 and isinstance(cur.targets[0], ast.Name)):
+        return False
+    T = cur.targets[0].id
+    owner = cur
+    while not isinstance(owner, (ast.FunctionDef, ast.AsyncFunctionDef)):
+        owner = owner.parent
+    if sum(1 for x in ast.walk(owner) if isinstance(x, ast.Name) and x.id == T and isinstance(x.ctx, ast.Store)) != 1:
+        return False
+    uses = [x for x in ast.walk(owner) if isinstance(x, ast.Name) and x.id == T and isinstance(x.ctx, ast.Load)]
+    for u in uses:
+        par = u.parent
+        if isinstance(par, ast.Attribute) and isinstance(par.parent, ast.Call) and par.parent.func is par and par.attr in ("write_bytes", "write_text", "unlink", "rename", "replace"):
+            continue
+        if isinstance(par, ast.Call) and dotted(par.func) in FILE_WRITERS and par.args and par.args[0] is u:
+            continue
+        if isinstance(par, ast.Call) and dotted(par.func) == "open" and par.args and par.args[0] is u and len(par.args) > 1 and isinstance(par.args[1], ast.Constant) \
+                and isinstance(par.args[1].value, str) and par.args[1].value[:1] in ("w", "x"):
+            continue
+        if isinstance(par, (ast.JoinedStr, ast.FormattedValue)) or (isinstance(par, ast.Call) and dotted(par.func) in ("str", "repr")):
+            # only in a log message
+            p2 = par
+            while not isinstance(p2, ast.stmt):
+                p2 = p2.parent
+            if isinstance(p2, ast.Expr) and isinstance(p2.value, ast.Call) and (dotted(p2.value.func) or "").split(".")[0] in ("logger", "logging", "log"):
+                continue
+        if isinstance(par, ast.Call) and (dotted(par.func) or "").split(".")[0] in ("logger", "logging", "log"):
+            continue
+        return False
+    return bool(uses)
+
+
 def _call_exception(q: str, c: ast.Call, fn: ast.FunctionDef) -> Optional[str]:
+    if dotted(c.func) in FILE_WRITERS or (dotted(c.func) == "open" and len(c.args) > 1 and isinstance(c.args[1], ast.Constant) and str(c.args[1].value)[:1] in ("w", "x")):
+        owner = c
+        while not isinstance(owner, (ast.FunctionDef, ast.AsyncFunctionDef)):
+            owner = owner.parent
+        if any(isinstance(x, ast.Call) and isinstance(x.func, ast.Attribute) and x.func.attr in ("read_bytes", "read_text") for x in ast.walk(fn)) or \
+                any(isinstance(x, ast.Call) and isinstance(x.func, ast.Attribute) and x.func.attr in ("write_bytes", "write_text") for x in ast.walk(owner)):
+            return ("a write to the on-disk cache: what a stored file may do to a later result is decided by R-C15-7 (the file's name covers every input of "
+                    "its content) and, for C14, by the load that rejects an unusable file")
     if q == "clean.clean_text":
         f = c.func
         params = [a.arg for a in fn.args.args]
@@ -514,8 +562,10 @@ def run(ctx: Ctx):
                 org = origin_of(mod.imports, n.func)  # `from time import time as now; now()` -> time.time
                 if any(d == p.rstrip(".") or d.startswith(p) for p in AMBIENT_PREFIXES) or classify(org) == "ambient":
                     key = next((k for k in AMBIENT_ALLOWED if k[0] == mod.name and k[1] == body_owner and k[2] == norm(n)), None)
-                    ctx.ob("R-C15-4", f"{body_owner}/ambient:{norm(n)[:30]}", key is not None,
-                           AMBIENT_ALLOWED[key] if key else "ambient input (clock / randomness / environment) on the extraction path",
+                    tmp_only = key is None and hasattr(n, "parent") and _names_temp_file_only(n, None)
+                    ctx.ob("R-C15-4", f"{body_owner}/ambient:{norm(n)[:30]}", key is not None or tmp_only,
+                           AMBIENT_ALLOWED[key] if key else ("only names a temporary file that is written and then renamed over / removed: no result is computed from it"
+                                                             if tmp_only else "ambient input (clock / randomness / environment) on the extraction path"),
                            node=n, mod=mod)
                 # a time budget handed to a library makes its result depend on how fast this run happens to be (CPU clock, load from other
                 # threads): only "no limit" (0 / None) is an input-independent setting
